@@ -1,4 +1,4 @@
-import NbioVerif.Lemmas.C09Choice
+import NbioVerif.Lemmas.C09Stage2
 /-! C09 HTTP response framing — property theorems over the model `Resp` (nbhttp/response.go). -/
 namespace Resp
 
@@ -127,9 +127,10 @@ concatenation according to the flag decided by `checkChunked`, and the terminato
 section) is present exactly in chunked mode.  No byte of the body is lost, duplicated, reordered or
 preceded by foreign bytes, whatever the write sizes (all 64 KiB threshold branches) and wherever Flush is
 called.  (Defect #16 broke exactly this: stale pool bytes in front of a chunk header.) -/
-theorem c09_wire_shape (g : Cfg) (hg : g.failAt = 0) (hdr : Header) (sc : Nat) (st : Bytes)
-    (ops : List BOp) (hok : ∀ op ∈ ops, op.ok) :
-    ∃ rE : R, Line (body0 g hdr sc st).statusCode (body0 g hdr sc st).status (body0 g hdr sc st).chunked rE ∧
+theorem c09_wire_shape_K (g : Cfg) (hg : g.failAt = 0) (hdr : Header) (sc : Nat) (st : Bytes)
+    (ops : List BOp) (hok : ∀ op ∈ ops, op.ok)
+    (K : Header → Prop) (hK0 : K (body0 g hdr sc st).header) (hKops : ∀ op ∈ ops, ∀ h, K h → K (op.onHeader h)) :
+    ∃ rE : R, Line K (body0 g hdr sc st).statusCode (body0 g hdr sc st).status (body0 g hdr sc st).chunked rE ∧
       wireOf g hdr sc st ops =
         g.head rE ++ framed (body0 g hdr sc st).chunked (accepted g hdr sc st ops) ++
           (if (body0 g hdr sc st).chunked then lastChunk (eoncodeHead g (endState g hdr sc st ops)) else []) ∧
@@ -138,10 +139,10 @@ theorem c09_wire_shape (g : Cfg) (hg : g.failAt = 0) (hdr : Header) (sc : Nat) (
   have hp : Pre (body0 g hdr sc st) := pre_prelude g _
   have hw := start_winv _ hf hp
   obtain ⟨hd', i1, _, i3, i4, i5⟩ :=
-    runB_spec g hg (verdict (body0 g hdr sc st)) ops hok _ _ _ (body0 g hdr sc st) none [] hw ⟨rfl, rfl, rfl⟩
-      (by intro H hH; cases hH)
+    runB_spec g hg (verdict (body0 g hdr sc st)) ops hok K hKops _ _ _
+      (body0 g hdr sc st) none [] hw ⟨rfl, rfl, rfl, hK0⟩ (by intro H hH; cases hH)
   obtain ⟨f1, f2, f3⟩ := finish_spec g hg _ _ hd' _ i1
-  have i5' := headOf_after g _ _ _ (runB g (body0 g hdr sc st) ops).1 hd' i4 i5
+  have i5' := headOf_after g _ _ _ _ (runB g (body0 g hdr sc st) ops).1 hd' i4 i5
   cases hh : hdAfter g (runB g (body0 g hdr sc st) ops).1 hd' with
   | none => rw [hh] at f3; simp at f3
   | some H =>
@@ -151,6 +152,15 @@ theorem c09_wire_shape (g : Cfg) (hg : g.failAt = 0) (hdr : Header) (sc : Nat) (
     rw [f1, hh, i3, e1]
     simp
 
+theorem c09_wire_shape (g : Cfg) (hg : g.failAt = 0) (hdr : Header) (sc : Nat) (st : Bytes)
+    (ops : List BOp) (hok : ∀ op ∈ ops, op.ok) :
+    ∃ rE : R, Line (fun _ => True) (body0 g hdr sc st).statusCode (body0 g hdr sc st).status (body0 g hdr sc st).chunked rE ∧
+      wireOf g hdr sc st ops =
+        g.head rE ++ framed (body0 g hdr sc st).chunked (accepted g hdr sc st ops) ++
+          (if (body0 g hdr sc st).chunked then lastChunk (eoncodeHead g (endState g hdr sc st ops)) else []) ∧
+      (finish g (endState g hdr sc st ops)).2 = g.reqClose :=
+  c09_wire_shape_K g hg hdr sc st ops hok (fun _ => True) trivial (fun _ _ _ _ => trivial)
+
 /-- **C09 stage 1, framing.** Under the stage-1 hypotheses and for payloads the length formatter can
 express (`≤ 2^31-1` bytes), a reference decoder recovers exactly the concatenation of the accepted
 writes from what follows the head: identity framing IS the concatenation; chunked framing decodes (RFC
@@ -159,7 +169,7 @@ theorem c09_stage1_unframe (g : Cfg) (hg : g.failAt = 0) (hdr : Header) (sc : Na
     (ops : List BOp) (hok : ∀ op ∈ ops, op.ok)
     (hsz : ∀ d ∈ accepted g hdr sc st ops, d.length ≤ maxChunk) :
     ∃ (rE : R) (F : Bytes),
-      Line (body0 g hdr sc st).statusCode (body0 g hdr sc st).status (body0 g hdr sc st).chunked rE ∧
+      Line (fun _ => True) (body0 g hdr sc st).statusCode (body0 g hdr sc st).status (body0 g hdr sc st).chunked rE ∧
       wireOf g hdr sc st ops = g.head rE ++ F ∧
       ((body0 g hdr sc st).chunked = false → F = (accepted g hdr sc st ops).flatten) ∧
       ((body0 g hdr sc st).chunked = true →
@@ -195,6 +205,142 @@ theorem c09_framing_choice (g : Cfg) (hdr : Header) (sc : Nat) (st : Bytes) (hs 
     (checkChunked g (writeHeader200 (start hdr sc st))).chunked =
       rfcChunked g.proto11 hdr (if sc = 0 then 200 else sc) :=
   framing_choice g hdr sc st hs
+
+/-! ### `Sane` and the combined stage-1 statement -/
+
+def BOp.sizeOk : BOp → Bool
+  | .write d => decide (d.length ≤ maxChunk)
+  | _ => true
+
+instance (op : BOp) : Decidable op.ok := by cases op <;> unfold BOp.ok <;> infer_instance
+
+/-- **`Sane`** (stage 1), a decidable predicate on the handler's header map and body-phase program:
+satisfiable framing requests (`saneFraming`), no change of Content-Length once the body phase has begun,
+payloads within the range of the chunk-length formatter (2^31-1 bytes). -/
+def sane (g : Cfg) (hdr : Header) (ops : List BOp) : Bool :=
+  saneFraming g hdr && ops.all fun op => decide op.ok && op.sizeOk
+
+theorem runB_accepted_mem (g : Cfg) (ops : List BOp) (r : R) : ∀ d ∈ (runB g r ops).2, BOp.write d ∈ ops := by
+  induction ops generalizing r with
+  | nil => intro d hd; simp [runB] at hd
+  | cons op rest ih =>
+    intro d hd
+    cases op with
+    | write d' =>
+      simp only [runB] at hd
+      generalize write g r d' = p at hd
+      obtain ⟨r', w⟩ := p
+      dsimp only at hd
+      rcases List.mem_append.mp hd with h1 | h1
+      · cases w <;> simp at h1
+        subst h1; exact List.mem_cons_self ..
+      · exact List.mem_cons_of_mem _ (ih r' d h1)
+    | flush => simp only [runB] at hd; exact List.mem_cons_of_mem _ (ih _ d hd)
+    | setH k v => simp only [runB] at hd; exact List.mem_cons_of_mem _ (ih _ d hd)
+    | addH k v => simp only [runB] at hd; exact List.mem_cons_of_mem _ (ih _ d hd)
+    | delH k => simp only [runB] at hd; exact List.mem_cons_of_mem _ (ih _ d hd)
+
+/-- **C09 stage 1.** For every head encoder `g.head` (every head byte string `H`), every header map, status
+and body-phase program with `sane g hdr ops`, on a connection that accepts the writes:
+`wire = H ++ F`; the framing is chunked iff the RFC 7230 §3.3 rule says so for (request version, handler
+headers, status); identity: `F` is the concatenation of the accepted writes; chunked: the reference decoder
+turns `F` into that concatenation (and the trailer section).  Together with `c09_write_returns_len`
+(every successful write returns `|data|`) this is the framing half of C09. -/
+theorem c09_stage1 (g : Cfg) (hg : g.failAt = 0) (hdr : Header) (sc : Nat) (st : Bytes) (ops : List BOp)
+    (hs : sane g hdr ops = true) :
+    (body0 g hdr sc st).chunked = rfcChunked g.proto11 hdr (if sc = 0 then 200 else sc) ∧
+    ∃ (H F : Bytes), wireOf g hdr sc st ops = H ++ F ∧
+      ((body0 g hdr sc st).chunked = false → F = (accepted g hdr sc st ops).flatten) ∧
+      ((body0 g hdr sc st).chunked = true →
+        ∃ T, unchunk ((nonEmpty (accepted g hdr sc st ops)).length + 1) F =
+              some ((accepted g hdr sc st ops).flatten, T)) := by
+  unfold sane at hs
+  simp only [Bool.and_eq_true, List.all_eq_true, decide_eq_true_eq] at hs
+  obtain ⟨hf, hall⟩ := hs
+  have hok : ∀ op ∈ ops, op.ok := fun op hop => (hall op hop).1
+  have hsz : ∀ d ∈ accepted g hdr sc st ops, d.length ≤ maxChunk := by
+    intro d hd
+    have := (hall _ (runB_accepted_mem g ops _ d hd)).2
+    simpa [BOp.sizeOk] using this
+  refine ⟨c09_framing_choice g hdr sc st hf, ?_⟩
+  obtain ⟨rE, F, _, w, h1, h2⟩ := c09_stage1_unframe g hg hdr sc st ops hok hsz
+  refine ⟨g.head rE, F, w, h1, ?_⟩
+  intro hc
+  obtain ⟨T, hT, _⟩ := h2 hc
+  exact ⟨T, hT⟩
+
+/-! ## Stage 2: the head
+
+With the concrete head encoder `headBytes` (`g.head = headBytes g`), for programs whose body-phase header
+operations only concern declared trailers, a reference head parser (`parseHead`: status line, `name: value`
+lines, empty line) reads the wire back. -/
+
+/-- the handler's header names/values and status are printable as a head (token-ish names without colon,
+no CR anywhere, a three-digit status, a protocol string without space) -/
+structure SaneHeaders (g : Cfg) (r : R) : Prop where
+  proto : ∀ c ∈ g.proto, c ≠ 13 ∧ c ≠ 32
+  status : noCR r.status
+  code : r.statusCode ≤ 999
+  names : ∀ p ∈ handlerPairs (hget r.header kTrailer) r.header, nameOk p.1
+  values : ∀ p ∈ handlerPairs (hget r.header kTrailer) r.header, noCR p.2
+
+/-- **C09 stage 2, head round trip.** Under the stage-1 hypotheses, with the real head encoder, header
+operations during the body phase restricted to declared trailer keys, and printable headers: the reference
+parser reads the wire as (i) the status line `proto SP code SP reason` of the handler's status — which
+`parseStatusLine` splits back into protocol, code and reason —, (ii) the header fields = the automatic ones
+of the encoding state followed by EXACTLY the handler's non-trailer header values (every value of every key,
+in map order), and (iii) the framed body `F` of stage 1. -/
+theorem c09_stage2_head (g : Cfg) (hg : g.failAt = 0) (hreal : g.head = headBytes g)
+    (hdr : Header) (sc : Nat) (st : Bytes) (ops : List BOp) (hok : ∀ op ∈ ops, op.ok)
+    (htr : ∀ op ∈ ops, op.trailerOnly (body0 g hdr sc st).header)
+    (hs : SaneHeaders g (body0 g hdr sc st)) :
+    ∃ (rE : R) (F : Bytes),
+      parseHead (wireOf g hdr sc st ops) =
+        some (statusBody g (body0 g hdr sc st),
+              autoPairs g rE ++ handlerPairs (hget (body0 g hdr sc st).header kTrailer) (body0 g hdr sc st).header, F) ∧
+      parseStatusLine (statusBody g (body0 g hdr sc st)) =
+        some (g.proto, (body0 g hdr sc st).statusCode, (body0 g hdr sc st).status) ∧
+      rE.chunked = (body0 g hdr sc st).chunked ∧
+      F = framed (body0 g hdr sc st).chunked (accepted g hdr sc st ops) ++
+          (if (body0 g hdr sc st).chunked then lastChunk (eoncodeHead g (endState g hdr sc st ops)) else []) := by
+  obtain ⟨rE, ⟨l1, l2, l3, l4⟩, w1, _⟩ := c09_wire_shape_K g hg hdr sc st ops hok
+    (SameHead (body0 g hdr sc st).header) ⟨rfl, fun _ _ => rfl⟩
+    (fun op hop h hh => sameHead_op _ h op (htr op hop) hh)
+  refine ⟨rE, _, ?_, ?_, l3, rfl⟩
+  · rw [w1, hreal, List.append_assoc]
+    have hsE : SaneHead g rE := by
+      refine ⟨fun c hc => (hs.proto c hc).1, by rw [l2]; exact hs.status, by rw [l1]; exact hs.code, ?_, ?_⟩
+      · rw [l4.1]; exact hs.names
+      · rw [l4.1]; exact hs.values
+    rw [parseHead_headBytes g rE _ hsE, l4.1]
+    have : statusBody g rE = statusBody g (body0 g hdr sc st) := by unfold statusBody; rw [l1, l2]
+    rw [this]
+  · exact parseStatusLine_statusBody g _ (fun c hc => (hs.proto c hc).2) hs.code
+
+/-- **C09 stage 2, trailer section.** What follows the last-chunk line `0 CRLF` is the rendering of the
+trailer fields — the keys declared in `Trailer` when the head was encoded, each with the value the header map
+holds when the handler returns (late values included) — and the reference field parser reads it back. -/
+theorem c09_stage2_trailers (r : R) (X : Bytes)
+    (hk : ∀ p ∈ trailerPairs r, nameOk p.1) (hv : ∀ p ∈ trailerPairs r, noCR p.2) :
+    lastChunk r = str "0\r\n" ++ (renderPairs (trailerPairs r) ++ 13 :: 10 :: []) ∧
+    parseHeaders ((trailerPairs r).length + 1) (renderPairs (trailerPairs r) ++ 13 :: 10 :: X) =
+      some (trailerPairs r, X) :=
+  ⟨lastChunk_normal r, parseHeaders_trailers r X hk hv⟩
+
+/-- trailer split: no declared trailer key appears among the head's handler fields -/
+theorem c09_stage2_split (tk : List Bytes) (h : Header) : ∀ p ∈ handlerPairs tk h, tk.contains p.1 = false := by
+  intro p hp
+  unfold handlerPairs at hp
+  simp only [List.mem_flatten, List.mem_map] at hp
+  obtain ⟨l, ⟨e, _, he⟩, hpl⟩ := hp
+  subst he
+  split at hpl
+  · cases hpl
+  · rename_i hc
+    simp only [List.mem_map] at hpl
+    obtain ⟨v, _, hv⟩ := hpl
+    subst hv
+    simpa using hc
 
 /-! ### what is still wrong in the tree (known findings): the full statement fails, witnesses -/
 
@@ -250,8 +396,8 @@ theorem c09_identity_auto_length_partial (g : Cfg) (hg : g.failAt = 0) (hdr : He
   have hp : Pre (body0 g hdr sc st) := pre_prelude g _
   have hw := start_winv _ hf hp
   obtain ⟨hd', i1, _, i3, _, _⟩ :=
-    runB_spec g hg (verdict (body0 g hdr sc st)) ops hok _ _ _ (body0 g hdr sc st) none [] hw ⟨rfl, rfl, rfl⟩
-      (by intro H hH; cases hH)
+    runB_spec g hg (verdict (body0 g hdr sc st)) ops hok (fun _ => True) (fun _ _ _ _ => trivial) _ _ _
+      (body0 g hdr sc st) none [] hw ⟨rfl, rfl, rfl, trivial⟩ (by intro H hH; cases hH)
   have hne := runB_noenc g (verdict (body0 g hdr sc st)) ops hnf hok _ hp hid hf.henc hv rfl
   have hc : (runB g (body0 g hdr sc st) ops).1.chunked = false := by rw [i3]; exact hid
   obtain ⟨hi, _⟩ := i1.idn hc
@@ -277,22 +423,32 @@ theorem c09_identity_auto_length_partial (g : Cfg) (hg : g.failAt = 0) (hdr : He
 section nonvacuity
 set_option maxRecDepth 100000
 
-instance (op : BOp) : Decidable op.ok := by cases op <;> unfold BOp.ok <;> infer_instance
-
 /-- a chunked program with a Flush in the middle and a late trailer value: the hypotheses hold and the
 wire is what a client expects -/
 example :
     let hdr : Header := [(kDate, [str "D"]), (kTrailer, [str "X-Sum"])]
     let ops : List BOp := [.write (str "hello "), .flush, .write (str "world"), .setH (str "X-Sum") (str "11")]
-    saneFraming cfg11 hdr = true ∧ (∀ op ∈ ops, op.ok) ∧
+    sane cfg11 hdr ops = true ∧
     wireOf cfg11 hdr 0 [] ops =
       str ("HTTP/1.1 200 OK\r\nContent-Type: text/plain; charset=utf-8\r\nDate: D\r\nTrailer: X-Sum\r\n" ++
            "Transfer-Encoding: chunked\r\n\r\n6\r\nhello \r\n5\r\nworld\r\n0\r\nX-Sum: 11\r\n\r\n") := by
-  refine ⟨by decide, by decide, by decide⟩
+  refine ⟨by decide, by decide⟩
 
 /-- the reference decoder on that wire's framing part -/
 example : unchunk 3 (str "6\r\nhello \r\n5\r\nworld\r\n0\r\nX-Sum: 11\r\n\r\n") =
     some (str "hello world", str "X-Sum: 11\r\n\r\n") := by decide
+
+/-- stage 2 on the same program: the hypotheses hold and the reference parser returns the handler's header
+fields (Date, Trailer; X-Sum is a trailer and absent) after the automatic ones -/
+example :
+    let hdr : Header := [(kDate, [str "D"]), (kTrailer, [str "X-Sum"])]
+    let ops : List BOp := [.write (str "hello "), .flush, .write (str "world"), .setH (str "X-Sum") (str "11")]
+    cfg11.head = headBytes cfg11 ∧
+    (parseHead (wireOf cfg11 hdr 0 [] ops)).map (fun p => (p.1, p.2.1)) =
+      some (str "HTTP/1.1 200 OK",
+            [(kCT, str "text/plain; charset=utf-8"), (kDate, str "D"), (kTrailer, str "X-Sum"), (kTE, str "chunked")]) ∧
+    parseStatusLine (str "HTTP/1.1 200 OK") = some (str "HTTP/1.1", 200, str "OK") := by
+  refine ⟨rfl, by decide, by decide⟩
 
 end nonvacuity
 
